@@ -123,6 +123,17 @@ def main():
     vs = [sv2[c["tid"]]["verdict"] for c in bad_pairs]
     results["corruptions"].append({"corruption": "same run: add 1 to the last scan_count of the other execution", "applied": len(vs),
                                    "rejected": sum(1 for x in vs if x != "ok"), "named_field_as_expected": sum(1 for x in vs if x == "event:scan_count"), "verdicts": sorted(set(vs))})
+    # 'silent' (C15: print-mode no-default): the same run that wrote a line to standard out is rejected; a prefix relation over a
+    # base run that raised compares no lines (C07)
+    sil = []
+    for t in ok[:25]:
+        c = copy.deepcopy(t)
+        c["final"]["stdout"] = [[120]]
+        sil.append(samerun.case(t["tid"] + 600000, t, [samerun.other(c, "silent", lines=True)]))
+    _, sv3 = samerun.validate(sil)
+    vs = [sv3[c["tid"]]["verdict"] for c in sil]
+    results["corruptions"].append({"corruption": "silent run: one line on standard out", "applied": len(vs),
+                                   "rejected": sum(1 for x in vs if x != "ok"), "named_field_as_expected": sum(1 for x in vs if x == "final_stdout"), "verdicts": sorted(set(vs))})
     etraces = []
     i = 0
     while len(etraces) < 40 and i < 400:
